@@ -444,8 +444,8 @@ class SpooledStringIO(SpooledIOBase):
             self._traverse_codepoints(self.tell(), pos)
             self._tell = start_pos + pos
         elif mode == os.SEEK_END:
-            self.buffer.seek(0)
             dest_position = self.len - pos
+            self.buffer.seek(0)
             self._traverse_codepoints(0, dest_position)
             self._tell = dest_position
         else:
@@ -496,7 +496,6 @@ class SpooledStringIO(SpooledIOBase):
     @property
     def len(self):
         """Determine the number of codepoints in the file"""
-        pos = self.buffer.tell()
         tell = self._tell  # self.read() below moves the codepoint position
         self.buffer.seek(0)
         total = 0
@@ -505,8 +504,9 @@ class SpooledStringIO(SpooledIOBase):
             if not ret:
                 break
             total += len(ret)
-        self.buffer.seek(pos)
-        self._tell = tell
+        # the byte position of the buffer is not the position of the
+        # decoder on top of it (readline reads ahead): go back by codepoints
+        self.seek(tell)
         return total
 
 
